@@ -1,7 +1,13 @@
-"""C04 oracle on the real code: the same operation sequence through WBEMConnection + CIM-XML facade (harness/facade.py)
-versus directly on an identically built FakedWBEMConnection.  Used by harness/c04.py."""
+"""C04 on the real code: the same operation sequence through WBEMConnection + CIM-XML facade (harness/facade.py) and
+directly on an identically built twin (FakedWBEMConnection or a scripted server).  Used by harness/c04.py.
+
+An operation is a JSON-able dict {'op': <method name>, 'args': {keyword: spec}}; `spec` describes a Python value
+(build_arg).  Everything random is drawn while *generating* specs, so a history can be replayed from its JSON."""
 import copy
 import json
+import random
+
+import cimgen
 import cimproto
 import c01
 import facade
@@ -11,22 +17,67 @@ Qualifier Key : boolean = false, Scope(property, reference), Flavor(DisableOverr
 Qualifier Association : boolean = false, Scope(association), Flavor(DisableOverride, ToSubclass);
 Qualifier Description : string = null, Scope(any), Flavor(EnableOverride, ToSubclass, Translatable);
 Qualifier EmbeddedInstance : string = null, Scope(property, method, parameter);
+Qualifier In : boolean = true, Scope(parameter), Flavor(DisableOverride, ToSubclass);
+Qualifier Out : boolean = false, Scope(parameter), Flavor(DisableOverride, ToSubclass);
+Qualifier Static : boolean = false, Scope(property, method), Flavor(DisableOverride, ToSubclass);
 class TST_E { string a; uint16 n; };
 class TST_P {
     [Key, Description("the name")] string name;
     uint32 v; sint64 s64; real64 r; boolean b; datetime dt; char16 c;
     string sa[]; uint8 u8a[];
     [EmbeddedInstance("TST_E")] string emb;
+    [Static] uint32 SEcho(
+        [In] string s, [In] uint8 a[], [In] TST_P REF r, [In, EmbeddedInstance("TST_E")] string e, [In] boolean b,
+        [In] datetime d, [In] real64 x, [In] sint64 i, [In] char16 c, [In] string sa[], [In] TST_P REF ra[],
+        [In(false), Out] string os, [In(false), Out] uint8 oa[], [In(false), Out] TST_P REF orf,
+        [In(false), Out, EmbeddedInstance("TST_E")] string oe, [In(false), Out] boolean ob,
+        [In(false), Out] datetime od, [In(false), Out] real64 ox, [In(false), Out] sint64 oi,
+        [In(false), Out] char16 oc, [In(false), Out] string osa[], [In(false), Out] TST_P REF ora[]);
+    uint32 IEcho(
+        [In] string s, [In] uint8 a[], [In] TST_P REF r, [In, EmbeddedInstance("TST_E")] string e, [In] boolean b,
+        [In] datetime d, [In] real64 x, [In] sint64 i, [In] char16 c, [In] string sa[], [In] TST_P REF ra[],
+        [In(false), Out] string os, [In(false), Out] uint8 oa[], [In(false), Out] TST_P REF orf,
+        [In(false), Out, EmbeddedInstance("TST_E")] string oe, [In(false), Out] boolean ob,
+        [In(false), Out] datetime od, [In(false), Out] real64 ox, [In(false), Out] sint64 oi,
+        [In(false), Out] char16 oc, [In(false), Out] string osa[], [In(false), Out] TST_P REF ora[]);
 };
 class TST_Q : TST_P { [Description("extra \\"q\\" & <x>")] string extra; };
 [Association] class TST_L { [Key] TST_P REF parent; [Key] TST_P REF child; string note; };
 '''
 NSS = ['root/a', 'root/b']
+ECHO = {'s': 'os', 'a': 'oa', 'r': 'orf', 'e': 'oe', 'b': 'ob', 'd': 'od', 'x': 'ox', 'i': 'oi', 'c': 'oc', 'sa': 'osa',
+        'ra': 'ora'}
+OUT_TYPES = {'os': ('string', False, None), 'oa': ('uint8', True, None), 'orf': ('reference', False, None),
+             'oe': ('string', False, 'instance'), 'ob': ('boolean', False, None), 'od': ('datetime', False, None),
+             'ox': ('real64', False, None), 'oi': ('sint64', False, None), 'oc': ('char16', False, None),
+             'osa': ('string', True, None), 'ora': ('reference', True, None)}
+
+
+def _echo_provider_class():
+    import pywbem
+    import pywbem_mock
+
+    class EchoProvider(pywbem_mock.MethodProvider):
+        provider_classnames = 'TST_P'
+
+        def InvokeMethod(self, methodname, localobject, params):
+            if methodname.lower() not in ('secho', 'iecho'):
+                raise pywbem.CIMError(pywbem.CIM_ERR_METHOD_NOT_AVAILABLE)
+            outs = []
+            for pn, p in params.items():
+                on = ECHO.get(pn.lower())
+                if on:
+                    t, arr, eo = OUT_TYPES[on]
+                    outs.append(pywbem.CIMParameter(on, t, value=p.value, is_array=arr, embedded_object=eo))
+            if 's' in params and params['s'].value == 'fail':
+                raise pywbem.CIMError(pywbem.CIM_ERR_FAILED, 'asked to fail & <so>')
+            rv = pywbem.Uint32(len(params)) if methodname.lower() == 'secho' else None
+            return rv, outs
+    return EchoProvider
 
 
 def build(sizes, rng_seed):
     """deterministic repository: two calls with the same arguments give equal repositories"""
-    import random
     import pywbem
     import mockutil
     r = random.Random(rng_seed)
@@ -68,17 +119,296 @@ def build(sizes, rng_seed):
             a.path = pywbem.CIMInstanceName('TST_L', keybindings={'parent': insts[0].path, 'child': insts[i].path},
                                             namespace=ns)
             conn.add_cimobjects([a], namespace=ns)
+    conn.register_provider(_echo_provider_class()(conn.cimrepository), namespaces=NSS)
+    conn.c04_outtypes = OUT_TYPES
     return conn
 
 
-def canon_result(x):
-    """canonical JSON of an operation result (objects through DSP0201 defaults; hosts dropped from object paths
-    because the mock omits the host in several results where a CIM-XML server has to send one)"""
+class Scripted:
+    """a server whose operations answer with a prepared result whatever they are asked (C04 quantifies over ANY server
+    behaviour); same seam as FakedWBEMConnection"""
+
+    def __init__(self, script, host='scripted:5988'):
+        self.host = host
+        self.script = script          # callable(methodname) -> result list | None | CIMError instance
+        self.calls = []
+
+    def _imethodcall(self, methodname, namespace, **params):
+        import pywbem
+        self.calls.append((methodname, namespace, params))
+        r = self.script(methodname)
+        if isinstance(r, pywbem.CIMError):
+            raise r
+        return copy.deepcopy(r)
+
+
+def scripted_direct(script, default_namespace):
+    """the reference path for a scripted server: a FakedWBEMConnection (which inherits every operation method of
+    WBEMConnection and replaces only the _imethodcall seam) whose seam is the script"""
+    import pywbem_mock
+    conn = pywbem_mock.FakedWBEMConnection(default_namespace='root/cimv2')
+    conn.default_namespace = default_namespace
+    s = Scripted(script, host=conn.host)
+    conn._imethodcall = s._imethodcall
+    return conn, s
+
+
+# ----------------------------------------------------------------------------- argument specs
+
+def build_arg(spec, env):
     import pywbem
+    t = spec['t']
+    if t == 'none':
+        return None
+    if t in ('bool', 'int', 'str'):
+        return spec['v']
+    if t == 'strs':
+        return list(spec['v'])
+    if t == 'tuple':
+        return tuple(spec['v'])
+    if t == 'other':
+        return {'float': 2.5, 'dict': {}, 'bytes_like': object()}.get(spec['v'], 2.5)
+    if t == 'iname':
+        kb = {'name': spec['key']} if spec.get('key') is not None else {}
+        return pywbem.CIMInstanceName(spec['cls'], keybindings=kb, namespace=spec.get('ns'), host=spec.get('host'))
+    if t == 'lname':     # path of an association instance
+        def end(k):
+            return pywbem.CIMInstanceName('TST_Q' if k % 3 == 2 else 'TST_P', keybindings={'name': 'p%d' % k},
+                                          namespace=spec['ens'])
+        return pywbem.CIMInstanceName('TST_L', keybindings={'parent': end(0), 'child': end(spec['k'])},
+                                      namespace=spec.get('ns'), host=spec.get('host'))
+    if t == 'cname':
+        return pywbem.CIMClassName(spec['cls'], namespace=spec.get('ns'), host=spec.get('host'))
+    if t == 'gen':       # type-directed random object, reproducible from its seed
+        g = cimgen.Gen(random.Random(spec['seed']), allow_cr=False)
+        k = spec['k']
+        if k == 'inst':
+            return g.instance(with_path=spec.get('with_path'))
+        if k == 'iname':
+            return g.instancename(with_ns=spec.get('with_ns'))
+        if k == 'cname':
+            return g.classname()
+        if k == 'cls':
+            return g.klass()
+        if k == 'qdecl':
+            return g.qualdecl()
+        if k == 'str':
+            return g.string(20)
+        if k == 'name':
+            return g.name()
+        if k == 'strs':
+            return [g.name() if g.r.random() < 0.9 else None for _ in range(g.r.choice([0, 1, 2, 5]))]
+        raise ValueError(k)
+    if t == 'newinst':
+        props = {'name': spec['name']}
+        if spec.get('v') is not None:
+            props['v'] = pywbem.Uint32(spec['v'])
+        if spec.get('text') is not None:
+            props['extra'] = spec['text']
+        if spec.get('bad'):
+            props['nosuchprop'] = 'x'
+        i = pywbem.CIMInstance(spec['cls'], properties=props)
+        if spec.get('pathns', 0) != 0:
+            i.path = pywbem.CIMInstanceName(spec['cls'], keybindings={'name': spec['name']}, namespace=spec['pathns'])
+        return i
+    if t == 'modinst':
+        p = None
+        if spec.get('path', True):
+            p = pywbem.CIMInstanceName(spec['cls'], keybindings={'name': spec['key']}, namespace=spec.get('ns'),
+                                       host=spec.get('host'))
+        return pywbem.CIMInstance(spec['cls'], properties={'name': spec['key'], 'v': pywbem.Uint32(spec['v'])}, path=p)
+    if t == 'newcls':
+        fl = spec.get('flavors', True)
+        kq = pywbem.CIMQualifier('Key', True, overridable=False, tosubclass=True, toinstance=False, translatable=False,
+                                 propagated=False) if fl else pywbem.CIMQualifier('Key', True)
+        dq = pywbem.CIMQualifier('Description', spec.get('desc', 'd'), overridable=True, tosubclass=True, toinstance=False,
+                                 translatable=True, propagated=False)
+        props = {'name': pywbem.CIMProperty('name', None, type='string', qualifiers={'Key': kq},
+                                            class_origin=spec['name'], propagated=False),
+                 spec.get('prop', 'z'): pywbem.CIMProperty(spec.get('prop', 'z'), None, type=spec.get('ptype', 'uint8'),
+                                                           class_origin=spec['name'], propagated=False)}
+        if spec.get('super'):
+            del props['name']
+        c = pywbem.CIMClass(spec['name'], superclass=spec.get('super'), properties=props,
+                            qualifiers={'Description': dq} if spec.get('clsqual') else {})
+        if spec.get('path'):
+            c.path = pywbem.CIMClassName(spec['name'], namespace='root/b', host='h')
+        return c
+    if t == 'qdecl':
+        sc = {k: True for k in spec.get('scopes', ['property'])}
+        if spec.get('any_false'):
+            sc['any'] = False
+        return pywbem.CIMQualifierDeclaration(spec['name'], spec.get('type', 'string'), value=spec.get('value'),
+                                              is_array=spec.get('is_array', False), scopes=sc,
+                                              overridable=spec.get('overridable', True), tosubclass=True, toinstance=False,
+                                              translatable=spec.get('translatable', False))
+    if t == 'ctx':
+        c = env['ctx'].get(spec['i'])
+        if c is None:
+            return ('no-such-context-%d' % spec['i'], spec.get('ns', 'root/a')) if spec.get('bogus') else None
+        if 'ns' in spec:
+            return (c[0], spec['ns'])
+        return c
+    if t == 'mparams':   # Params list for InvokeMethod: list of (name, value-spec) / CIMParameter specs
+        out = []
+        for name, vs, as_param in spec['v']:
+            v = build_mval(vs)
+            if as_param:
+                ty, arr, eo = vs['ptype']
+                out.append(pywbem.CIMParameter(name, ty, value=v, is_array=arr, embedded_object=eo))
+            else:
+                out.append((name, v))
+        return out
+    if t == 'mval':
+        return build_mval(spec['v'])
+    raise ValueError(t)
+
+
+def build_mval(vs):
+    """value of an extrinsic method parameter"""
+    import pywbem
+    k = vs['k']
+    if k == 'none':
+        return None
+    if k == 'str':
+        return vs['v']
+    if k == 'bool':
+        return vs['v']
+    if k == 'int':
+        return getattr(pywbem, vs['ty'].capitalize())(vs['v'])
+    if k == 'real':
+        return pywbem.Real64(vs['v'])
+    if k == 'dt':
+        return pywbem.CIMDateTime(vs['v'])
+    if k == 'char16':
+        return pywbem.Char16(vs['v'])
+    if k == 'ref':
+        return pywbem.CIMInstanceName('TST_P', keybindings={'name': vs['v']}, namespace=vs.get('ns'), host=vs.get('host'))
+    if k == 'einst':
+        return pywbem.CIMInstance('TST_E', properties={'a': vs['v'], 'n': pywbem.Uint16(3)})
+    if k == 'arr':
+        return [build_mval(x) for x in vs['v']]
+    raise ValueError(k)
+
+
+def arg_json(v, T):
+    """Python argument value -> the Arg JSON of the Lean driver"""
+    import pywbem
+    if v is None:
+        return {'t': 'none'}
+    if isinstance(v, bool):
+        return {'t': 'bool', 'v': v}
+    if isinstance(v, int):
+        return {'t': 'int', 'v': str(v)}
+    if isinstance(v, str):
+        return {'t': 'str', 'v': cimproto.cps(v)}
+    if isinstance(v, (list, tuple)) and all(x is None or isinstance(x, str) for x in v):
+        return {'t': 'strs', 'v': [cimproto.ocps(x) for x in v]}
+    if isinstance(v, (pywbem.CIMInstanceName, pywbem.CIMClassName)):
+        return {'t': 'path', 'v': cimproto.path_to_json(v, T)}
+    if isinstance(v, pywbem.CIMInstance):
+        return {'t': 'inst', 'v': cimproto.inst_to_json(v, T)}
+    if isinstance(v, pywbem.CIMClass):
+        return {'t': 'cls', 'v': cimproto.cls_to_json(v, T)}
+    if isinstance(v, pywbem.CIMQualifierDeclaration):
+        return {'t': 'qdecl', 'v': cimproto.qdecl_to_json(v, T)}
+    return {'t': 'other'}
+
+
+def pval_json(v, T, canon=False):
+    """typed parameter value as a server passes it to the operation -> PVal JSON"""
+    if isinstance(v, bool):
+        return {'b': v}
+    if isinstance(v, int):
+        return {'i': str(v)}
+    if isinstance(v, str):
+        return {'s': cimproto.cps(v)}
+    if isinstance(v, (list, tuple)):
+        return {'l': [cimproto.ocps(x) for x in v]}
+    j = cimproto.obj_to_json(v, T)
+    if canon:
+        j = c01.canon(c01.with_defaults(j))
+    return {'o': j}
+
+
+def ritem_json(o, T):
+    import pywbem
+    if isinstance(o, tuple) and len(o) == 3 and o[0] == 'OBJECTPATH':
+        x = o[2]
+        if isinstance(x, pywbem.CIMInstance):
+            return {'k': 'opInst', 'v': cimproto.inst_to_json(x, T)}
+        if isinstance(x, (pywbem.CIMInstanceName, pywbem.CIMClassName)):
+            return {'k': 'opPath', 'v': cimproto.path_to_json(x, T)}
+        return {'k': 'opCls', 'p': cimproto.path_to_json(x[0], T), 'c': cimproto.cls_to_json(x[1], T)}
+    if isinstance(o, pywbem.CIMInstance):
+        return {'k': 'inst', 'v': cimproto.inst_to_json(o, T)}
+    if isinstance(o, (pywbem.CIMInstanceName, pywbem.CIMClassName)):
+        return {'k': 'path', 'v': cimproto.path_to_json(o, T)}
+    if isinstance(o, pywbem.CIMClass):
+        return {'k': 'cls', 'v': cimproto.cls_to_json(o, T)}
+    if isinstance(o, pywbem.CIMQualifierDeclaration):
+        return {'k': 'qdecl', 'v': cimproto.qdecl_to_json(o, T)}
+    raise TypeError('ritem_json: %r' % (type(o),))
+
+
+def result_json(rec, T):
+    """what the seam answered (facade log record) -> Result JSON of the Lean driver; None when not expressible"""
+    if 'error' in rec:
+        return {'err': rec['error'][0], 'desc': cimproto.cps(rec['error'][1] or '')}
+    if 'result' not in rec:
+        return None
+    items = []
+    for item in (rec['result'] or []):
+        if item[0] == 'IRETURNVALUE':
+            items.append({'iret': [ritem_json(o, T) for o in (item[2] or [])]})
+        elif item[0] == 'EndOfSequence':
+            items.append({'eos': cimproto.cps(str(item[2]))})
+        elif item[0] == 'EnumerationContext':
+            items.append({'ctx': cimproto.ocps(item[2])})
+        else:
+            return None
+    return {'items': items}
+
+
+def cobj_json(x, T):
+    if isinstance(x, tuple):
+        return {'pair': [cimproto.path_to_json(x[0], T), cimproto.cls_to_json(x[1], T)]}
+    return {'obj': cimproto.obj_to_json(x, T)}
+
+
+def cval_json(opname, r, T):
+    """return value of an operation method -> CVal JSON of the Lean driver"""
+    if r is None:
+        return {'none': True}
+    if opname == 'EnumerateClassNames':
+        return {'names': [cimproto.cps(x) for x in r]}
+    if hasattr(r, 'eos'):
+        objs = r.paths if hasattr(r, 'paths') else r.instances
+        ctx = None if r.context is None else [cimproto.ocps(r.context[0]), cimproto.cps(r.context[1])]
+        return {'pull': [cobj_json(x, T) for x in objs], 'eos': bool(r.eos), 'ctx': ctx}
+    if isinstance(r, list):
+        return {'list': [cobj_json(x, T) for x in r]}
+    return {'one': cobj_json(r, T)}
+
+
+# ----------------------------------------------------------------------------- canonical outcomes (oracle)
+
+def canon_result(x):
+    """canonical JSON of an operation result (objects through DSP0201 defaults; hosts dropped from object paths because
+    the mock omits the host in several results where a CIM-XML server has to send one; enumeration context ids replaced
+    by a placeholder: the two twins draw different uuids)"""
     if x is None or isinstance(x, (bool, int, str, float)):
         return x
+    if hasattr(x, 'eos'):
+        objs = x.paths if hasattr(x, 'paths') else x.instances
+        return {'pull': canon_result(list(objs)), 'eos': bool(x.eos),
+                'ctx': None if x.context is None else ['<ctx>' if x.context[0] else x.context[0], x.context[1]]}
     if isinstance(x, (list, tuple)):
         return [canon_result(y) for y in x]
+    if hasattr(x, 'items') and not hasattr(x, 'tocimxml'):
+        return {k.lower(): canon_result(v) for k, v in x.items()}
+    if not hasattr(x, 'tocimxml'):       # an atomic CIM value (return value / output parameter of a method)
+        return c01._atom_defaults(cimproto.atom_to_json(x, cimproto.Tables()))
     j = c01.canon(c01.with_defaults(cimproto.obj_to_json(x, cimproto.Tables())))
     return _drop_hosts(j)
 
@@ -97,185 +427,129 @@ def _drop_hosts(j):
 def outcome(fn):
     import pywbem
     try:
-        return {'ok': canon_result(fn())}
+        r = fn()
     except pywbem.CIMError as e:
-        return {'exc': 'CIMError', 'code': e.status_code}
+        return {'exc': 'CIMError', 'code': e.status_code}, None
     except pywbem.Error as e:
-        return {'exc': type(e).__name__}
+        return {'exc': type(e).__name__}, None
     except Exception as e:  # noqa
-        return {'exc': type(e).__name__, 'leak': True}
+        return {'exc': type(e).__name__, 'local': True}, None
+    return {'ok': canon_result(r)}, r
 
 
-def gen_ops(rng, sizes, n):
-    """operation list as JSON-able dicts; names in random case; existing / missing / foreign targets"""
-    ops = []
-    created = 0
-
-    def cname():
-        c = rng.choice(['TST_P', 'TST_P', 'TST_Q', 'TST_L', 'TST_E', 'TST_Nope'])
-        return rng.choice([c, c, c.lower(), c.upper()])
-
-    def ns():
-        return rng.choice([None, None, 'root/a', 'root/b', 'ROOT/A', 'root/nope'])
-
-    def iname():
-        n_ = rng.choice(['root/a', 'root/a', 'root/b', None])
-        sz = sizes[n_ or 'root/a']
-        i = rng.choice(list(range(max(sz, 1))) + [99])
-        cls = 'TST_Q' if i % 3 == 2 else 'TST_P'
-        return {'cls': rng.choice([cls, cls.lower()]), 'key': 'p%d' % i, 'ns': n_}
-
-    def flags(names):
-        return {k: rng.choice([None, None, True, False]) for k in names}
-
-    def plist():
-        return rng.choice([None, None, [], ['name'], ['NAME', 'v'], ['nope'], ['r', 'dt', 'sa']])
-
-    for _ in range(n):
-        k = rng.choice(['GetInstance', 'GetInstance', 'EnumerateInstances', 'EnumerateInstanceNames', 'Associators',
-                        'AssociatorNames', 'References', 'ReferenceNames', 'GetClass', 'EnumerateClasses',
-                        'EnumerateClassNames', 'EnumerateQualifiers', 'GetQualifier', 'CreateInstance', 'ModifyInstance',
-                        'DeleteInstance', 'OpenEnumerateInstances', 'OpenEnumerateInstancePaths', 'ExecQuery',
-                        'ClassAssociators', 'ClassReferenceNames', 'DeleteQualifier', 'CreateClass', 'DeleteClass'])
-        if k == 'GetInstance':
-            ops.append({'op': k, 'iname': iname(), 'kw': dict(flags(['LocalOnly', 'IncludeQualifiers', 'IncludeClassOrigin']),
-                                                               PropertyList=plist())})
-        elif k in ('EnumerateInstances',):
-            ops.append({'op': k, 'cls': cname(), 'ns': ns(),
-                        'kw': dict(flags(['LocalOnly', 'DeepInheritance', 'IncludeQualifiers', 'IncludeClassOrigin']),
-                                   PropertyList=plist())})
-        elif k == 'EnumerateInstanceNames':
-            ops.append({'op': k, 'cls': cname(), 'ns': ns(), 'kw': {}})
-        elif k in ('Associators', 'References'):
-            kw = dict(flags(['IncludeQualifiers', 'IncludeClassOrigin']), PropertyList=plist(),
-                      ResultClass=rng.choice([None, None, 'TST_P', 'tst_q', 'TST_L', 'Nope']),
-                      Role=rng.choice([None, None, 'parent', 'CHILD', 'nope']))
-            if k == 'Associators':
-                kw.update(AssocClass=rng.choice([None, None, 'TST_L', 'tst_l', 'TST_P']),
-                          ResultRole=rng.choice([None, None, 'child', 'Parent']))
-            ops.append({'op': k, 'iname': iname(), 'kw': kw})
-        elif k in ('AssociatorNames', 'ReferenceNames'):
-            kw = dict(ResultClass=rng.choice([None, None, 'TST_P', 'TST_L']), Role=rng.choice([None, 'parent', 'child']))
-            if k == 'AssociatorNames':
-                kw.update(AssocClass=rng.choice([None, 'TST_L']), ResultRole=rng.choice([None, 'child']))
-            ops.append({'op': k, 'iname': iname(), 'kw': kw})
-        elif k in ('ClassAssociators', 'ClassReferenceNames'):
-            real = 'Associators' if k == 'ClassAssociators' else 'ReferenceNames'
-            ops.append({'op': real, 'clsobj': cname(), 'ns': ns(), 'kw': {}})
-        elif k == 'GetClass':
-            ops.append({'op': k, 'cls': cname(), 'ns': ns(),
-                        'kw': dict(flags(['LocalOnly', 'IncludeQualifiers', 'IncludeClassOrigin']), PropertyList=plist())})
-        elif k == 'EnumerateClasses':
-            ops.append({'op': k, 'cls': rng.choice([None, None, 'TST_P', 'tst_p', 'Nope']), 'ns': ns(),
-                        'kw': flags(['DeepInheritance', 'LocalOnly', 'IncludeQualifiers', 'IncludeClassOrigin'])})
-        elif k == 'EnumerateClassNames':
-            ops.append({'op': k, 'cls': rng.choice([None, None, 'TST_P', 'Nope']), 'ns': ns(),
-                        'kw': flags(['DeepInheritance'])})
-        elif k == 'EnumerateQualifiers':
-            ops.append({'op': k, 'ns': ns(), 'kw': {}})
-        elif k in ('GetQualifier', 'DeleteQualifier'):
-            ops.append({'op': k, 'q': rng.choice(['Key', 'key', 'Description', 'Nope', 'EmbeddedInstance']), 'ns': ns(), 'kw': {}})
-        elif k == 'CreateInstance':
-            created += 1
-            ops.append({'op': k, 'new': {'cls': rng.choice(['TST_P', 'TST_Q', 'TST_Nope', 'tst_p']),
-                                         'name': rng.choice(['c%d' % created, 'p0', 'c1']),
-                                         'v': rng.choice([None, 5]), 'bad': rng.random() < 0.1,
-                                         'text': rng.choice([None, 'a&b<c>', ' x ', 'é😀', 'tab\t'])}, 'ns': ns()})
-        elif k == 'ModifyInstance':
-            ops.append({'op': k, 'iname': iname(), 'v': rng.choice([1, 2, 3]), 'kw': dict(PropertyList=rng.choice([None, ['v'], ['name'], []]))})
-        elif k == 'DeleteInstance':
-            ops.append({'op': k, 'iname': iname(), 'kw': {}})
-        elif k in ('OpenEnumerateInstances', 'OpenEnumerateInstancePaths'):
-            ops.append({'op': k, 'cls': cname(), 'ns': ns(), 'kw': dict(MaxObjectCount=rng.choice([None, 0, 1, 2, 100]))})
-        elif k == 'ExecQuery':
-            ops.append({'op': k, 'ns': ns(), 'kw': {}})
-        elif k == 'CreateClass':
-            ops.append({'op': k, 'name': rng.choice(['TST_New', 'TST_P', 'TST_Sub']), 'super': rng.choice([None, 'TST_P', 'Nope']), 'ns': ns()})
-        elif k == 'DeleteClass':
-            ops.append({'op': k, 'cls': rng.choice(['TST_New', 'TST_Sub', 'TST_E', 'Nope']), 'ns': ns(), 'kw': {}})
-    return ops
+def canon_seen(op, namespace, params):
+    """what a server-side operation was called with, canonical (objects through DSP0201 defaults, context ids replaced)"""
+    out = []
+    for k, v in params:
+        if k.lower() == 'enumerationcontext':
+            out.append([k.lower(), '<ctx>'])
+        elif hasattr(v, 'value') and hasattr(v, 'embedded_object') and hasattr(v, 'is_array'):
+            out.append([k.lower(), {'ty': v.type, 'arr': bool(v.is_array), 'eo': v.embedded_object,
+                                    'v': _drop_hosts(canon_result(v.value)) if not isinstance(v.value, (list,)) else
+                                    [_drop_hosts(canon_result(x)) for x in v.value]}])
+        else:
+            out.append([k.lower(), pval_json(v, cimproto.Tables(), canon=True)])
+    return {'op': op, 'ns': namespace, 'params': sorted(out, key=lambda p: p[0])}
 
 
-def apply(conn, op):
-    """run one generated op on a connection (WBEMConnection+facade or FakedWBEMConnection)"""
-    import pywbem
-    k = op['op']
-    kw = {a: b for a, b in (op.get('kw') or {}).items()}
+# ----------------------------------------------------------------------------- running histories
 
-    def mk_iname(d):
-        return pywbem.CIMInstanceName(d['cls'], keybindings={'name': d['key']}, namespace=d['ns'])
-    if 'iname' in op and k not in ('ModifyInstance',):
-        return getattr(conn, k)(mk_iname(op['iname']), **kw)
-    if 'clsobj' in op:
-        return getattr(conn, k)(pywbem.CIMClassName(op['clsobj'], namespace=op['ns']), **kw)
-    if k in ('EnumerateInstances', 'EnumerateInstanceNames', 'GetClass', 'OpenEnumerateInstances',
-             'OpenEnumerateInstancePaths', 'DeleteClass'):
-        r = getattr(conn, k)(op['cls'], namespace=op['ns'], **kw)
-        if k.startswith('Open'):
-            objs = r.instances if k == 'OpenEnumerateInstances' else r.paths
-            out = [list(objs), bool(r.eos), r.context is not None]
-            if r.context is not None:
-                conn.CloseEnumeration(r.context)
-            return out
-        return r
-    if k in ('EnumerateClasses', 'EnumerateClassNames'):
-        return getattr(conn, k)(namespace=op['ns'], ClassName=op['cls'], **kw)
-    if k == 'EnumerateQualifiers':
-        return conn.EnumerateQualifiers(namespace=op['ns'])
-    if k in ('GetQualifier', 'DeleteQualifier'):
-        return getattr(conn, k)(op['q'], namespace=op['ns'])
-    if k == 'CreateInstance':
-        n = op['new']
-        props = {'name': n['name']}
-        if n['v'] is not None:
-            props['v'] = pywbem.Uint32(n['v'])
-        if n['text'] is not None and n['cls'].lower() == 'tst_q':
-            props['extra'] = n['text']
-        if n['bad']:
-            props['nosuchprop'] = 'x'
-        return conn.CreateInstance(pywbem.CIMInstance(n['cls'], properties=props), namespace=op['ns'])
-    if k == 'ModifyInstance':
-        p = mk_iname(op['iname'])
-        if p.namespace is None:
-            p.namespace = conn.default_namespace
-        mi = pywbem.CIMInstance(p.classname, properties={'name': op['iname']['key'], 'v': pywbem.Uint32(op['v'])}, path=p)
-        return conn.ModifyInstance(mi, **kw)
-    if k == 'ExecQuery':
-        return conn.ExecQuery('WQL', 'select * from TST_P', namespace=op['ns'])
-    if k == 'CreateClass':
-        c = pywbem.CIMClass(op['name'], superclass=op['super'],
-                            properties={'name': pywbem.CIMProperty('name', None, type='string',
-                                                                    qualifiers={'Key': pywbem.CIMQualifier('Key', True)}),
-                                        'z': pywbem.CIMProperty('z', None, type='uint8')})
-        return conn.CreateClass(c, namespace=op['ns'])
-    raise ValueError(k)
+def call_op(conn, op, env):
+    kw = {k: build_arg(v, env) for k, v in op['args'].items()}
+    if op['op'] == 'InvokeMethod':
+        extra = {k: build_mval(v) for k, v in op.get('kwparams', {}).items()}
+        return conn.InvokeMethod(kw.get('MethodName'), kw.get('ObjectName'), kw.get('Params'), **extra), kw
+    return getattr(conn, op['op'])(**kw), kw
 
 
 def spy_calls(fake, log):
-    """record what the server side of a *direct* call sees (operation, namespace, non-None parameters)"""
-    orig = fake._imethodcall
+    """record what the server side of a *direct* call sees (operation, namespace, non-None parameters in call order)"""
+    orig_i, orig_m = fake._imethodcall, fake._methodcall
 
-    def spy(methodname, namespace, **params):
-        p = {k: v for k, v in params.items() if v is not None and k not in ('has_out_params', 'has_return_value')}
-        log.append(('imethod', methodname, namespace, facade._canon_params(copy.deepcopy(p))))
-        return orig(methodname, namespace, **params)
-    fake._imethodcall = spy
+    def spy_i(methodname, namespace, **params):
+        p = [(k, copy.deepcopy(v)) for k, v in params.items()
+             if v is not None and k not in ('has_out_params', 'has_return_value')]
+        log.append(('IMETHODCALL', methodname, namespace, p))
+        return orig_i(methodname, namespace, **params)
+
+    def spy_m(methodname, objectname, Params=None, **params):
+        log.append(('METHODCALL', methodname, copy.deepcopy(objectname), copy.deepcopy(Params), copy.deepcopy(params)))
+        return orig_m(methodname, objectname, Params, **params)
+    fake._imethodcall = spy_i
+    fake._methodcall = spy_m
+
+
+class Step:
+    """everything observed for one operation of a history"""
+    __slots__ = ('op', 'kw', 'wire', 'wire_raw', 'direct', 'direct_raw', 'exchanges', 'direct_seen', 'host')
 
 
 def run_history(sizes, seed, ops, default_namespace='root/a'):
-    """returns list of (op, via_wire, direct, seen_wire, seen_direct)"""
     A = build(sizes, seed)
     B = build(sizes, seed)
-    A.default_namespace = default_namespace
     B.default_namespace = default_namespace
-    seen = facade.Seen()
-    client, ad = facade.make_client(A, default_namespace=default_namespace, seen=seen)
+    client, ad = facade.make_client(A, default_namespace=default_namespace)
     direct_log = []
     spy_calls(B, direct_log)
-    out = []
-    for op in ops:
-        n0, m0 = len(seen.calls), len(direct_log)
-        w = outcome(lambda: apply(client, op))
-        d = outcome(lambda: apply(B, op))
-        out.append((op, w, d, seen.calls[n0:], direct_log[m0:]))
-    return out
+    return _run(ops, client, ad, B, direct_log)
+
+
+def run_scripted(ops, scripts, default_namespace='root/a'):
+    """scripts[i] = result of every seam call made by op i (a list / None / ('err', code, desc))"""
+    import pywbem
+    cur = {'i': 0}
+
+    def script(methodname):
+        r = scripts[cur['i']]
+        if isinstance(r, tuple) and r and r[0] == 'err':
+            return pywbem.CIMError(r[1], r[2])
+        return r
+    srv = Scripted(script)
+    client, ad = facade.make_client(srv, default_namespace=default_namespace)
+    B, bs = scripted_direct(script, default_namespace)
+    direct_log = []
+    orig = B._imethodcall
+
+    def spy(methodname, namespace, **params):
+        p = [(k, copy.deepcopy(v)) for k, v in params.items()
+             if v is not None and k not in ('has_out_params', 'has_return_value')]
+        direct_log.append(('IMETHODCALL', methodname, namespace, p))
+        return orig(methodname, namespace, **params)
+    B._imethodcall = spy
+    return _run(ops, client, ad, B, direct_log, cur)
+
+
+def _run(ops, client, ad, B, direct_log, cur=None):
+    envW, envD = {'ctx': {}}, {'ctx': {}}
+    steps = []
+    for i, op in enumerate(ops):
+        if cur is not None:
+            cur['i'] = i
+        n0, m0 = len(ad.log), len(direct_log)
+        st = Step()
+        st.op = op
+        box = {}
+
+        def go_w():
+            r, kw = call_op(client, op, envW)
+            box['kw'] = kw
+            return r
+
+        def go_d():
+            r, kw = call_op(B, op, envD)
+            return r
+        try:
+            box['kw'] = {k: build_arg(v, envW) for k, v in op['args'].items()}
+        except Exception:  # noqa
+            box['kw'] = {}
+        st.wire, st.wire_raw = outcome(go_w)
+        st.direct, st.direct_raw = outcome(go_d)
+        st.kw = box['kw']
+        for env, raw in ((envW, st.wire_raw), (envD, st.direct_raw)):
+            if raw is not None and hasattr(raw, 'eos'):
+                env['ctx'][i] = raw.context
+        st.exchanges = ad.log[n0:]
+        st.host = client.host
+        st.direct_seen = direct_log[m0:]
+        steps.append(st)
+    return steps
